@@ -561,7 +561,11 @@ def triage(ctx, name, results, absorbed, samples, frontier=False):
 # ------------------------------------------------------------------ run
 def run(ctx):
     ctx.level = "proof"
-    ctx.lean_stage([], ["Verif.Props.C02", "Verif.Props.Coalesce"])
+    ctx.lean_stage(["emph_chars", "entities"], ["Verif.Props.C02", "Verif.Props.Coalesce", "Verif.Props.LinkRecog", "Verif.Props.InlineRecog", "Verif.Props.Emphasis"])
+    import blocks
+    blocks.linkrecog(ctx)      # *_reassembly, rehydrate_lossless_partial / rehydrate_excluded
+    blocks.inlinerecog(ctx)    # angle / rawhtml / charref / backslash / codespan reassembly, codespan_text_roundtrip
+    blocks.emphasis(ctx)       # resolve_conservation, resolve_plains_preserved, resolve_lossless_partial
     ctx.block("coalescelib", "coalesce")        # coalesce pass: content preserved, no adjacent text (Verif.Props.Coalesce)
     t0 = time.time()
     fstats, mism, oracle = function_level(ctx)
